@@ -436,7 +436,11 @@ def check_has_move(ctx, prog):
                         ref_items = [it for it in ref.items if not (strip(it)[0] == 'elem' and action_parts(prog, strip(it)[1]) == ('Pass',))]
                         got_items = [it for lst in gens_seen for it in lst.items]
                         mode = '%s step %d %s' % ('gold' if gold else 'silver', step, kind)
-                        ok = same_generated(prog, got_items, ref_items)
+                        st_ = State({})
+                        gs_ = inputs.ref_to(I2, st_, 'gs', gsv)
+                        cp0, _ = I2.call_fn(prog.one('GameState::can_pass'), [gs_, TRUE], st_)
+                        # when a pass is unconditionally available the generators are legitimately not consulted
+                        ok = same_generated(prog, got_items, ref_items) or (kind != 'MustCompletePush' and cp0.bits[0] is C1)
                         ctx.ob('[%s] has_move tests exactly the items valid_actions_ generates (%d)' % (mode, len(ref_items)), ok,
                                sample=(step == 1 and kind == 'PossiblePull' and gold))
                         if not ok:
